@@ -30,6 +30,8 @@ class LangTable:
             self.queries.append(key)
 
     def eval(self):
+        import time
+        t0 = time.time()
         srname = {"Qc": "QcSR", "bool": "BoolSR"}[self.sr]
         defs = [(f"G{i}", f"Definition G{i} : grammar {srname} := {M.coq_grammar(g, self.sr)}.") for i, g in enumerate(self.gs)]
         exprs = [f"lang G{gid} {FUEL} {X}%nat {M.coq_str(xs)}" for gid, X, xs in self.queries]
@@ -44,12 +46,23 @@ class LangTable:
 
 
 def finitely_ambiguous(g, maxlen=2):
-    """exact Kleene iteration stabilises on all short strings (no nullable/unary cycles reachable)"""
-    m = M.mirror_exact(g)
-    for xs in M.strings(g["nT"], maxlen):
-        if m.lang(g["S"], list(xs), fuel=25) is None:
-            return False
-    return True
+    """every string has finitely many derivation trees: the relation "X derives Y with the same
+    yield" (X -> a Y b with a, b nullable) is acyclic.  Decided structurally (never by exact
+    iteration: Fractions explode on cyclic grammars)."""
+    nullable = set()
+    ch = True
+    while ch:
+        ch = False
+        for w, h, b in g["rules"]:
+            if h not in nullable and all(k == "N" and v in nullable for k, v in b):
+                nullable.add(h)
+                ch = True
+    e = {}
+    for w, h, b in g["rules"]:
+        for i, (k, v) in enumerate(b):
+            if k == "N" and all(kk == "N" and vv in nullable for j, (kk, vv) in enumerate(b) if j != i):
+                e.setdefault(h, set()).add(v)
+    return not M.has_cycle(e, M.nts_of(g))
 
 
 def run_jobs(jobs, hashseed=0, timeout=1800):
